@@ -1,7 +1,7 @@
 (* C15: the blank class is byte-exact.  "Blank" = the two bytes 32 (space) and 9 (tab), nothing else:
    a raw line that ends in any other byte (form feed, vertical tab, carriage return, the last byte of
    U+00A0 / U+0085 / U+2028, a lone 0x85 or 0xA0 ...) is left alone by CheckTrailingWhitespace. *)
-From PV Require Import Lib.Bytes Model.Tabs Model.Varalign Model.LayoutFix.
+From PV Require Import Lib.Bytes Model.Tabs Model.Varalign Model.LayoutFix Proofs.LayoutFix.
 From Coq Require Import ZifyBool ZifyN ZifyNat Lia.
 Open Scope Z_scope.
 
@@ -27,8 +27,8 @@ Qed.
 
 Lemma trim_raw_nonblank_end t c : is_hspace c = false -> trim_raw (t ++ [c]) = Ok (t ++ [c]).
 Proof.
-  intro H. unfold trim_raw. cbv zeta. rewrite (rtrim_nonblank_end t c H).
-  rewrite Z.eqb_refl. reflexivity.
+  intro H. rewrite trim_raw_spec. unfold trim_result. rewrite (rtrim_nonblank_end t c H).
+  destruct (ends_backslash (t ++ [c])); reflexivity.
 Qed.
 
 Lemma trailing_nonblank_end_untouched raws t c :
